@@ -903,6 +903,12 @@ static void run_op(int client, const json &op, OpResult &r)
 	} else if (kind == "setstr") {
 		std::string v = op["v"].is_null() ? std::string() : bytes_of(op["v"]);
 		const char *vp = op["v"].is_null() ? nullptr : v.c_str();
+		if (op.value("self", false)) {
+			// the application hands the library its own current value back (cfg_setstr(c, n, cfg_getstr(c, n)))
+			const char *volatile cur = nullptr;
+			LIBCALL(EMPTY, cur = cfg_getnstr(cfg, name.c_str(), idx));
+			vp = cur;
+		}
 		LIBCALL(op, r.ret = cfg_setnstr(cfg, name.c_str(), vp, idx));
 	} else if (kind == "osetint" || kind == "osetfloat" || kind == "osetbool" || kind == "osetstr") {
 		cfg_opt_t *o = find_leaf(cfg, name);
